@@ -188,6 +188,14 @@ def owner_insts(tier):
     pick = lambda tu, fn: find_func(tu, 'UNSAFE_sandboxed', CBT)
     out.append(Inst('c13_owner_hands_the_sandbox_its_entry_point', 'sandbox_callback<int (*)(long), vsbx>& c, rlbox_sandbox<vsbx>& s', 'c.UNSAFE_sandboxed(s);', cl,
                     OWNER_H + '  struct %s sb;\n  unsigned int r = $ROOT(&c, &sb);\n' % SB, leaves=['dynamic_check', no_swz], prop=PROP, root_name='UNSAFE_sandboxed', tier=tier, pre=OG, root_pick=pick))
+    # ... and the store route: `field = cb` puts the issued entry point into the function-pointer cell (tainted_volatile::operator= cond4)
+    TVF = cs('rlbox::tainted_volatile<int (*)(long), rlbox::vsbx>')
+    cl = [('objs', '__CPROVER_requires(__CPROVER_rw_ok($this, sizeof(struct %s)) && __CPROVER_r_ok($0, sizeof(struct %s)))' % (TVF, CB)),
+          ('the_cell_receives_the_entry_point_as_issued_by_the_backend', '__CPROVER_ensures((unsigned long)$this->data == (unsigned long)$0->callback_trampoline)'),
+          ('frame', '__CPROVER_assigns($this->data)')]
+    pick = lambda tu, fn: find_func(tu, 'operator=', 'rlbox::tainted_volatile<int (*)(long), rlbox::vsbx>', lambda f, rn: 'sandbox_callback' in f['type']['qualType'])
+    out.append(Inst('c13_callback_stored_into_a_function_pointer_cell_is_its_entry_point', 'tainted_volatile<int (*)(long), vsbx>& tv, sandbox_callback<int (*)(long), vsbx>& c', 'tv = c;', cl,
+                    OWNER_H + '  struct %s cell;\n  $ROOT(&cell, &c);\n' % TVF, leaves=['dynamic_check', no_swz, 'find_sandbox_from_example'], prop=PROP, root_name='operator=', tier=tier, pre=OG, root_pick=pick))
     return out
 
 
